@@ -140,6 +140,9 @@ pub struct NScenario {
     /// (function index, destination function index): the function's code is `jmp destination`
     #[serde(default)]
     pub forwards: Vec<(usize, usize)>,
+    /// synthetic functions start with varied realistic first instructions
+    #[serde(default)]
+    pub prologues: bool,
     pub lifetimes: Vec<NLifetime>,
     pub classes: Vec<String>,
 }
@@ -460,6 +463,7 @@ pub fn generate(profile: &str, seed: u64, index: u64) -> NScenario {
         targets,
         bystanders,
         forwards,
+        prologues: true,
         lifetimes,
         classes,
     }
@@ -913,8 +917,9 @@ pub fn setup_memory(sc: &NScenario) -> Result<(), String> {
             return Err(format!("arena at {b:#x} not available"));
         }
     }
-    for (a, id) in &sc.funcs {
-        arena::write_const_fn(*a, *id);
+    for (k, (a, id)) in sc.funcs.iter().enumerate() {
+        // entry instructions vary like those of compiled functions (seeded by position)
+        arena::write_fn_with_prologue(*a, *id, if sc.prologues { (k * 7 + (*a as usize >> 4)) % arena::PROLOGUES.len() } else { 0 });
     }
     for (f, d) in &sc.forwards {
         if let (Some((fa, _)), Some((da, _))) = (sc.funcs.get(*f), sc.funcs.get(*d)) {
